@@ -112,3 +112,11 @@ impl<'h> EndTimeObjectPatternGenerator<'h> {
         initial_column
     }
 }
+
+/// Verification hook (`--cfg rosu_pp_verif`): the private `convert_type`.
+#[cfg(rosu_pp_verif)]
+impl EndTimeObjectPatternGenerator<'_> {
+    pub const fn verif_convert_type(&self) -> u16 {
+        self.convert_type.verif_bits()
+    }
+}
